@@ -31,6 +31,7 @@ type Scenario struct {
 	Setup   func() // process-level switches (PoolChoice, LimitChoice …), run in the worker
 	Fine    bool   // statement-level scheduling points (vrt.Fine) are live in this scenario
 	NoFine  bool   // never derive a +stmt variant from this scenario
+	FineCap int    // if > 0, the +stmt variant's deviation bound is at most this
 }
 
 // WithFine returns, for every scenario, a copy named "<name>+stmt" in which the statement-level
@@ -44,6 +45,9 @@ func WithFine(scs []Scenario, p int) []Scenario {
 		sc.Name += "+stmt"
 		sc.Fine = true
 		sc.P = p
+		if sc.FineCap > 0 && sc.P > sc.FineCap {
+			sc.P = sc.FineCap
+		}
 		out = append(out, sc)
 	}
 	return out
